@@ -2,7 +2,9 @@ package main
 
 import (
 	"context"
+	"errors"
 	"fmt"
+	"io"
 	"math/rand"
 	"strings"
 	"sync"
@@ -134,6 +136,113 @@ func runC06(r *Run) {
 	if r.Want("replies") {
 		c06ReplyEnvelopes(r)
 	}
+	if r.Want("ssrecv") {
+		c06ServerRecvLockstep(r)
+	}
+}
+
+type feedRW struct{ in []*Rpc }
+
+func (f *feedRW) Read(ctx context.Context) (*Rpc, error) {
+	if len(f.in) == 0 {
+		return nil, context.Canceled
+	}
+	r := f.in[0]
+	f.in = f.in[1:]
+	return r, nil
+}
+func (f *feedRW) Write(ctx context.Context, r *Rpc) error { return nil }
+
+// c06ServerRecvLockstep: the handler side's RecvMsg on the real serverStream, fed with envelope
+// sequences, against the model (bodies up to the first trailer, then EOF or the status).
+func c06ServerRecvLockstep(r *Run) {
+	rng := r.Rand("c06.ssrecv")
+	n := r.Scale(500, 30000)
+	for i := 0; i < n; i++ {
+		k := rng.Intn(7)
+		var parts []string
+		rw := &feedRW{}
+		for j := 0; j < k; j++ {
+			e := &Rpc{Id: 3, Header: &goatorepo.RequestHeader{}}
+			switch rng.Intn(6) {
+			case 0:
+				parts = append(parts, "h")
+			case 1:
+				c := rng.Intn(17)
+				e.Status = &goatorepo.ResponseStatus{Code: int32(c)}
+				e.Trailer = &goatorepo.Trailer{}
+				parts = append(parts, fmt.Sprintf("t%d", c))
+			case 2:
+				e.Trailer = &goatorepo.Trailer{}
+				parts = append(parts, "T")
+			default:
+				p := []byte(genTextValue(rng))
+				pb, _ := goat_marshal(&wrapperspb.BytesValue{Value: p})
+				e.Body = &goatorepo.Body{Data: pb}
+				parts = append(parts, "b"+hx(p))
+			}
+			rw.in = append(rw.in, e)
+		}
+		ss, _ := server.NewServerStream(context.Background(), 3, "", "", "", rw, nil)
+		var got []string
+		term := "pending"
+		for {
+			m := new(wrapperspb.BytesValue)
+			err := ss.RecvMsg(m)
+			if err == nil {
+				got = append(got, hx(m.Value))
+				continue
+			}
+			if err == io.EOF {
+				term = "eof"
+			} else if st, ok := status.FromError(errors.Unwrap(err)); ok && st.Code() != codes.OK {
+				term = fmt.Sprintf("status%d", st.Code())
+			} else if st2 := status.Convert(errCause(err)); st2.Code() != codes.Unknown && st2.Code() != codes.OK {
+				term = fmt.Sprintf("status%d", st2.Code())
+			} else if strings.Contains(err.Error(), "code = ") {
+				term = "status" + statusCodeFromText(err.Error())
+			}
+			break
+		}
+		in := "_"
+		if len(parts) > 0 {
+			in = strings.Join(parts, ",")
+		}
+		out := "_"
+		if len(got) > 0 {
+			out = strings.Join(got, ",")
+		}
+		r.Case("ssrecv", in, out+"|"+term)
+	}
+}
+
+func errCause(err error) error {
+	type causer interface{ Cause() error }
+	for err != nil {
+		c, ok := err.(causer)
+		if !ok {
+			break
+		}
+		err = c.Cause()
+	}
+	return err
+}
+
+func statusCodeFromText(s string) string {
+	i := strings.Index(s, "code = ")
+	if i < 0 {
+		return "?"
+	}
+	name := s[i+7:]
+	if j := strings.Index(name, " "); j >= 0 {
+		name = name[:j]
+	}
+	for c := codes.Code(0); c <= 16; c++ {
+		if c.String() == name {
+			return fmt.Sprint(int(c))
+		}
+	}
+	return "?"
 }
 
 func routeCanon(e *Rpc) string {
